@@ -59,4 +59,11 @@ PROPS = {
         "rule": "after prefixes of an honest ceremony (11 positions quick, all thorough): ~80 hostile board messages validly signed where needed (unknown / empty / internal events; for ten event types: truncated JSON, null, array, type confusion, negative and huge participant ids, empty object; signing proposals with negative / out-of-range / empty / huge baked ranges; unknown, two-character and empty round ids). Oracle: no panic; a refused message leaves the durable snapshot unchanged. Compared with the model.",
         "exhaustive": {"quick": False, "thorough": False}, "trusted_base": ["ed25519 idealised (a signature names key and bytes); threshold crypto symbolic at node level (token ranges assigned by the harness from real kyber values; recover follows kyber tbls.Recover)", "JSON decoding of board messages, operations and dumps is done by the implementation's own decoders in the harness; the model starts from decoded values", "wall clock (time.Now) is an input of the model (NOWMARK); LevelDB and the file board are the real ones"], "assumptions": ["operation files fed to the airgapped machine and request bodies of the HTTP API are not covered in this round (node board messages only)"],
     },
+    "C08": {
+        "props": "Props/C08.v", "scenarios": ["c08"],
+        "rule": "an honest n=3,t=2 round A (ceremony, one batch, another node's broadcast, a late answer) on a real node, and seeded variants: random interleavings with a second round B on the same board, restarts at random points (crash image of the state directory), duplicates / old messages / signature-mutated copies / junk in between; the projection of round A (dump + signature store) must equal the one reached from A's sub-log alone. Plus reinit_dkg histories (fresh, twice, crafted for an existing round, foreign embedded message) and one replay of the whole log through the REAL Poll loop from an empty state. Every history is also run on the Coq node model.",
+        "exhaustive": {"quick": False, "thorough": False},
+        "trusted_base": ["ed25519 idealised; threshold crypto symbolic (harness-assigned token ranges from real kyber values)", "JSON decoding by the implementation's decoders in the harness", "wall clock is an input (NOWMARK): the deadline hypothesis of the property is met by construction"],
+        "assumptions": ["Poll batching is exercised with the real 1 s ticker on one log only; different batchings of the same log are covered by restarts at random points"],
+    },
 }
